@@ -884,11 +884,13 @@ var hostsLineVast = rapid.Custom(func(t *rapid.T) string {
 		badAt = n - 1 - rapid.IntRange(0, min(n-1, 3)).Draw(t, "badat")
 	}
 	sfx := rapid.SampledFrom([]string{".lan", ".Example.ORG", ".x"}).Draw(t, "sfx")
+	seps := []string{" ", "\t", "  ", " \t "}
+	stride := rapid.IntRange(0, 3).Draw(t, "stride")
 	for i := 0; i < n; i++ {
 		if i == runAt {
 			sb.WriteString(strings.Repeat(rapid.SampledFrom([]string{" ", "\t", " \t"}).Draw(t, "runws"), rapid.SampledFrom([]int{65530, 65536, 65537, 70000}).Draw(t, "runlen")))
 		}
-		sb.WriteString(rapid.SampledFrom([]string{" ", "\t", "  "}).Draw(t, "ws"))
+		sb.WriteString(seps[(i*stride)%len(seps)]) // (no draw per name: thousands of draws per case are slow)
 		if i == badAt {
 			sb.WriteString(rapid.SampledFrom([]string{"bad..name", "-x-.", "a_b!c", "1.2.3.4"}).Draw(t, "badname"))
 			continue
